@@ -17,6 +17,11 @@ Cell.formula) on real multi-sheet / multi-table documents built through the publ
                   references: read -> rename -> read -> rename back -> read, where each judged read
                   is the FIRST access after the edit; judged by the resolver on the names as they
                   are then and differentially against the same edits without any earlier read;
+* part `struct`   for every naming configuration up to 2x2 x Document.add_sheet with a table named by
+                  any pool name (duplicating every existing table's name) and Sheet.add_table on
+                  every sheet: read -> event -> read on fresh documents, for every host table
+                  (thorough: every host/target pair) of the original tables, coordinate and label
+                  references, judged absolutely on the post-event names and differentially;
 * part `hist`     histories read -> write a header label -> read (-> write -> read), every label
                   write of a menu that makes labels duplicate / unique, compared differentially
                   with the same writes applied without the earlier reads; plus rename / header-count
@@ -110,6 +115,17 @@ def apply_event(built, ev):
         else:
             built.tables[(si, ti)].num_header_cols = n
         built.model.set_headers((si, ti), axis, n)
+    elif k == "add_sheet":
+        _, nidx = ev
+        si = len(built.doc.sheets)
+        sname = R.sheet_name(si, built.model.seed)
+        built.doc.add_sheet(sname, table_name=R.table_name(nidx, built.model.seed), num_rows=R.N_ROWS, num_cols=R.N_COLS)
+        t = built.doc.sheets[si].tables[0]
+        built.model.add_table(si, sname, t.name, t.num_header_rows, t.num_header_cols)
+    elif k == "add_table":
+        _, si, nidx = ev
+        t = built.doc.sheets[si].add_table(R.table_name(nidx, built.model.seed), num_rows=R.N_ROWS, num_cols=R.N_COLS)
+        built.model.add_table(si, built.doc.sheets[si].name, t.name, t.num_header_rows, t.num_header_cols)
     elif k == "sheet":
         _, si, j = ev
         name = R.sheet_name(j, built.model.seed)
@@ -361,6 +377,134 @@ def work_rename(task):
     return part.dump()
 
 
+# --------------------------------------------------------------------------------------------
+# structural histories: the texts read after Document.add_sheet / Sheet.add_table
+# --------------------------------------------------------------------------------------------
+def struct_events(names):
+    """Document.add_sheet with a table named by every name of the configuration's pool (every name
+    in use - duplicating each existing table's name - plus one unused name), and Sheet.add_table on
+    every sheet with every pool name the sheet does not hold yet (nor its other-case twin: the
+    library refuses names that differ only in case inside a sheet)."""
+    used = sorted({n for sh in names for n in sh})
+    pool = used + [max(used) + 1]
+    evs = [["add_sheet", n] for n in pool]
+    for si, sh in enumerate(names):
+        for n in pool:
+            if n not in sh and (n ^ 1) not in sh:
+                evs.append(["add_table", si, n])
+    return evs
+
+
+def _rot(items, k):
+    k %= max(1, len(items))
+    return items[k:] + items[:k]
+
+
+def eval_struct_case(case):
+    """Minimal history on fresh documents. A: read the reference, apply the structural event, read
+    again (judged by the resolver on the names as they are then). B: apply the event on a document
+    on which nothing was read, then read; A's text must equal B's."""
+    ev, host, rc, target, spec = case["event"], tuple(case["host"]), tuple(case["rc"]), tuple(case["target"]), case["spec"]
+    when = "read>" + ev[0]
+    a = R.Built(case["names"], case["scheme"], case["seed"])
+    eval_ref(a, host, rc, target, spec)
+    apply_event(a, ev)
+    ta, out = eval_ref(a, host, rc, target, spec, when)
+    b = R.Built(case["names"], case["scheme"], case["seed"])
+    apply_event(b, ev)
+    tb, fb = eval_ref(b, host, rc, target, spec, when)
+    out = list(out) + [f for f in fb if f not in out]
+    if ta != tb:
+        out.append((_diff_ident(a, host, target, spec, case["scheme"], when),
+                    f"after {ev}: first text read is {ta!r} when the formula had been read before the event, "
+                    f"{tb!r} when not (stored {spec}, host table {host} cell {rc} -> table {target})"))
+    return out
+
+
+def work_struct(task):
+    """One naming configuration x label scheme, a list of structural events. Per event: document B
+    gets the event before anything is read, then every (host, target, reference) over the original
+    tables is read. For every group (quick: host table; thorough: (host, target) pair) a fresh
+    document A: read the group's references, apply the event, read them again - nothing touches the
+    document between the event and the first judged read, and which reference comes first rotates
+    with the event. Every post-event text is judged by the resolver on the post-event names and must
+    equal B's."""
+    names, scheme, seed, events, per_pair = task
+    part = Part()
+    body = R.body_of(scheme)
+    rc = (body[-1], body[0])
+    refs = ren_refs(body)
+    for n_ev, ev in enumerate(events):
+        when = "read>" + ev[0]
+        base = {"part": "struct", "names": names, "scheme": scheme, "seed": seed, "event": ev}
+        b = R.Built(names, scheme, seed)
+        uids = list(b.tables)
+        apply_event(b, ev)
+        docs = 1
+        n = 0
+        texts_b = {}
+
+        def record(fails, h, t, spec):
+            for ident, detail in fails:
+                part.fail(ident, detail, dict(base, host=list(h), rc=list(rc), target=list(t), spec=spec))
+
+        for h, t, spec in _rot([(h, t, spec) for h in uids for t in uids for spec in refs], n_ev * 5):
+            text, fails = eval_ref(b, h, rc, t, spec, when)
+            texts_b[(h, t, tuple(spec))] = text
+            record(fails, h, t, spec)
+            n += 1
+        groups = [[(h, t)] for h in uids for t in uids] if per_pair else [[(h, t) for t in uids] for h in uids]
+        changed = 0
+        for g_no, group in enumerate(groups):
+            a = R.Built(names, scheme, seed)
+            docs += 1
+            items = _rot([(h, t, spec) for h, t in group for spec in refs], n_ev * 5 + g_no)
+            pre = {}
+            for h, t, spec in items:
+                pre[(h, t, tuple(spec))] = eval_ref(a, h, rc, t, spec)[0]
+            apply_event(a, ev)
+            for h, t, spec in items:
+                text, fails = eval_ref(a, h, rc, t, spec, when)
+                record(fails, h, t, spec)
+                key = (h, t, tuple(spec))
+                if text != texts_b[key]:
+                    part.fail(_diff_ident(a, h, t, spec, scheme, when),
+                              f"after {ev}: text read is {text!r} when the formula had been read before the event, "
+                              f"{texts_b[key]!r} when not (stored {spec}, host table {h} cell {rc} -> table {t})",
+                              dict(base, host=list(h), rc=list(rc), target=list(t), spec=spec))
+                changed += text != pre[key]
+                n += 2
+            part.count("struct_first_reads_judged")
+        part.count("evaluations", n)
+        part.count("distinct_nontrivial", n)
+        part.count("cases_struct", n)
+        part.count("struct_histories")
+        part.count("documents_built", docs)
+        part.count("struct_event_" + ev[0])
+        if changed:
+            part.count("struct_histories_where_the_event_changed_a_printed_text")
+        part.outcome(f"struct/{ev[0]}/changed={bool(changed)}")
+    if events:
+        part.sample({"part": "struct", "names": names, "labels": scheme, "first_event_of_shard": events[0]})
+    return part.dump()
+
+
+def struct_tasks(tier, seed):
+    if tier == "quick":
+        plan = [((1, 1), ("same",)), ((1, 2), ("same",)), ((2, 1), ("same",)), ((2, 2), ("same",))]
+    else:
+        plan = [((1, 1), R.SCHEMES[:4]), ((1, 2), R.SCHEMES[:4]), ((2, 1), R.SCHEMES[:4]), ((2, 2), R.SCHEMES[:4]),
+                ((3, 1), ("same",))]
+    tasks = []
+    for (s, t), schemes in plan:
+        for names in R.canonical_name_configs(s, t, ordered=True):
+            evs = struct_events(names)
+            for scheme in schemes:
+                for i in range(0, len(evs), 2):
+                    tasks.append((names, scheme, seed, evs[i:i + 2], tier == "thorough"))
+    return tasks
+
+
 def rename_tasks(tier, seed):
     if tier == "quick":
         plan = [((1, 2), True, ("none", "same")), ((2, 1), True, ("none", "same")), ((2, 2), True, ("none", "same"))]
@@ -387,6 +531,8 @@ def eval_case(case, built=None):
         return eval_history(case)[1]
     if case["part"] == "ren":
         return eval_rename_case(case)
+    if case["part"] == "struct":
+        return eval_struct_case(case)
     if built is None:
         built = R.Built(case["names"], case["scheme"], case["seed"])
     res = eval_ref(built, case["host"], case["rc"], case["target"], case["spec"])[1]
@@ -497,6 +643,11 @@ def work_hist(cases):
     return part.dump()
 
 
+def work_any(job):
+    kind, task = job
+    return {"doc": work_doc, "hist": work_hist, "ren": work_rename, "struct": work_struct}[kind](task)
+
+
 # --------------------------------------------------------------------------------------------
 # task lists
 # --------------------------------------------------------------------------------------------
@@ -558,21 +709,20 @@ def main():
 
     run = Run(PID, "exploration", args)
     tasks = build_tasks(args.tier, args.seed)
-    # big documents first (better packing)
-    tasks.sort(key=lambda t: -len(t[1]) * len(t[1][0]) * (20 if t[0] == "coords" else 1))
-    for res in pmap(work_doc, tasks, args.jobs):
-        run.merge(res)
     hcases = history_cases(args.tier, args.seed)
     per = 4 if args.tier == "quick" else 12
     chunks = [hcases[i:i + per] for i in range(0, len(hcases), per)]
-    for res in pmap(work_hist, chunks, args.jobs):
-        run.merge(res)
-
     rtasks = rename_tasks(args.tier, args.seed)
-    rtasks.sort(key=lambda t: -sum(len(sh) for sh in t[0]))
-    for res in pmap(work_rename, rtasks, args.jobs):
-        run.merge(res)
     n_ren = sum(len(t[3]) for t in rtasks)
+    stasks = struct_tasks(args.tier, args.seed)
+    n_struct = sum(len(t[3]) for t in stasks)
+    # one pool for all parts; the long tasks (full coordinate sweeps, then history shards) first
+    tasks.sort(key=lambda t: -len(t[1]) * len(t[1][0]) * (20 if t[0] == "coords" else 1))
+    n_coords = sum(1 for t in tasks if t[0] == "coords")
+    jobs = [("doc", t) for t in tasks[:n_coords]] + [("struct", t) for t in stasks] + [("ren", t) for t in rtasks]
+    jobs += [("hist", ch) for ch in chunks] + [("doc", t) for t in tasks[n_coords:]]
+    for res in pmap(work_any, jobs, args.jobs):
+        run.merge(res)
 
     c = run.counters
     families = {}
@@ -595,7 +745,10 @@ def main():
     run.floor("rename histories executed (table and sheet renames), and in >= 20 of them the rename changed a printed text",
               c["rename_histories"] == n_ren and c["rename_event_rename"] > 0 and c["rename_event_sheet"] > 0
               and c["rename_histories_where_the_edit_changed_a_printed_text"] >= 20)
-    run.floor("every task produced its document", c["documents_built"] == len(tasks) + 2 * len(hcases) + 2 * n_ren)
+    run.floor("structural histories executed (add_sheet and add_table), and in >= 10 of them the event changed a printed text",
+              c["struct_histories"] == n_struct and c["struct_event_add_sheet"] > 0 and c["struct_event_add_table"] > 0
+              and c["struct_histories_where_the_event_changed_a_printed_text"] >= 10)
+    run.floor("every task produced its document", c["documents_built"] >= len(tasks) + 2 * len(hcases) + 2 * n_ren + 2 * n_struct)
     run.assume("sheet names, table names and header labels contain neither '::' nor ':'; labels that look like A1 coordinates, "
                "column letters or row numbers are not enumerated (the notation itself cannot tell them apart)")
     run.assume("reader model: no qualifier = host table; one qualifier = that table name in the host's sheet, else anywhere; "
@@ -608,7 +761,7 @@ def main():
                 "tuples, each printed text resolved by the independent reader model and compared with the stored target; "
                 "history probes count one per (history, probe point, host, target, reference)",
         "exhaustive": True,
-        "bounds": {"tier": args.tier, "tables_are": "4x4", "tasks": len(tasks), "histories": len(hcases), "rename_histories": n_ren},
+        "bounds": {"tier": args.tier, "tables_are": "4x4", "tasks": len(tasks), "histories": len(hcases), "rename_histories": n_ren, "structural_histories": n_struct},
     }
     return run.finish(cov)
 
